@@ -13,12 +13,22 @@
     fork on qubit 2.  [C15_modifiers] is therefore stated for all other stacks (of ANY depth), and
     [C15_mixed_refuted] exhibits the difference.
 
-    PARTIAL: "every computed unitary is unitary" is proved for what programs add (adjoints,
-    products, whole programs of unitary gates: [C15_unitary_partial]); unitarity of the 22 tables,
-    of CONTROLLED / FORKED blocks and of the lifting is checked numerically by the harness
-    (||U^dagger U - I|| < 1e-10) on every case; the full statement is [C15_full_unitarity]. *)
+    UNITARITY ("every computed unitary is unitary") is proved in full for the model
+    (Proofs/UnitarityProofs.v): the 22 standard tables for every angle ([C15_tables_unitary], in any
+    commutative ring with conjugation where i^2 = -1, conj i = -i, 2 (1/sqrt 2)^2 = 1, |e^{i pi/4}| = 1,
+    cos and sin are self-conjugate with cos^2 + sin^2 = 1 — hypotheses shown satisfiable in the
+    field Q(zeta_8) over the canonical rationals, [C15_unitary_hypotheses_satisfiable]);
+    CONTROLLED / FORKED / DAGGER blocks ([C15_controlled_unitary], [C15_forked_unitary],
+    [C15_dagger_unitary]); the lifting to n qubits ([C15_lift_unitary]: the Quil-semantics lifting
+    for EVERY n and every injective placement, the literal `lifted_gate_matrix` model within the
+    scope of C14_lift); every modifier stack, mixed CONTROLLED/FORKED stacks included
+    ([C15_unitary_modifiers] = the former open statement [C15_full_unitarity]); every gate and every
+    gate-only program over the standard gates ([C15_unitary]).  [C15_unitary_partial] is kept.
+    The harness still checks ||U^dagger U - I|| < 1e-10 on the REAL matrices (floating point is
+    not modelled). *)
 From Coq Require Import List NArith Bool Ring ZArith.
-From QV Require Import Model.Unitary Model.Modifiers Proofs.ModifiersProofs.
+From QV Require Import Model.Unitary Model.Modifiers Model.Unitarity Proofs.ModifiersProofs
+  Proofs.UnitarityProofs.
 Import ListNotations.
 Open Scope N_scope.
 
@@ -151,14 +161,207 @@ Section C15.
     Qed.
   End Programs.
 
-  (** The full unitarity statement (NOT proved: needs cos^2 + sin^2 = 1 & co. for the tables and
-      block / permutation arguments; checked numerically by the harness on every case): every
-      gate_matrix result is unitary when the tables are. *)
+  (** The full unitarity statement for modifier stacks: every gate_matrix result is unitary when
+      the tables are.  (Formerly open; now proved: [C15_unitary_modifiers] below.  Nothing of the
+      clause remains numeric-only on the model side; the tables' own unitarity is
+      [C15_tables_unitary].) *)
   Definition C15_full_unitarity : Prop :=
     (forall g p, unitary C c0 c1 cadd cmul cconj (N.to_nat (2 ^ arity g)) (base g p)) ->
     forall g s p m, gate_matrix g s p = Ok m ->
                     unitary C c0 c1 cadd cmul cconj (N.to_nat (mdim C m)) (ment C m).
+
+  Notation unitary := (unitary C c0 c1 cadd cmul cconj).
+
+  (** CONTROLLED: |0><0| (x) I + |1><1| (x) U is unitary when U is. *)
+  Theorem C15_controlled_unitary :
+    forall m : mat,
+      unitary (N.to_nat (mdim C m)) (ment C m) ->
+      unitary (N.to_nat (mdim C (controlled m))) (ment C (controlled m)).
+  Proof. apply (unitary_controlled C c0 c1 cadd cmul csub copp cconj); assumption. Qed.
+
+  (** FORKED: |0><0| (x) U1 + |1><1| (x) U2 is unitary when U1 and U2 (same number of qubits) are. *)
+  Theorem C15_forked_unitary :
+    forall m0 m1 : mat,
+      mq C m0 = mq C m1 ->
+      unitary (N.to_nat (mdim C m0)) (ment C m0) -> unitary (N.to_nat (mdim C m1)) (ment C m1) ->
+      unitary (N.to_nat (mdim C (forked m0 m1))) (ment C (forked m0 m1)).
+  Proof. apply (unitary_forked C c0 c1 cadd cmul csub copp cconj); assumption. Qed.
+
+  Theorem C15_dagger_unitary :
+    forall m : mat,
+      unitary (N.to_nat (mdim C m)) (ment C m) ->
+      unitary (N.to_nat (mdim C (dagger m))) (ment C (dagger m)).
+  Proof. apply (unitary_dagger C c0 c1 cadd cmul cconj); assumption. Qed.
+
+  (** Lifting.  [lift_spec M qs n r c] = M[bits_qs r][bits_qs c] if r, c agree off qs, else 0 (the
+      index function of C14_lift).  It is unitary when M is — for EVERY n and every injective
+      placement (proved from the index formula: sums over k < 2^n split into (bits_qs k, rest k));
+      within the scope of C14_lift the literal model of `lifted_gate_matrix` is the same matrix. *)
+  Theorem C15_lift_unitary :
+    forall (M : N -> N -> C) (qs : list N) (n : N),
+      NoDup qs -> (forall q, In q qs -> q < n) ->
+      unitary (N.to_nat (2 ^ N.of_nat (length qs))) M ->
+      unitary (N.to_nat (2 ^ n)) (lift_spec C c0 M qs n) /\
+      (n <= 5 -> (1 <= length qs <= 3)%nat ->
+       unitary (N.to_nat (2 ^ n)) (lift_model C c0 M qs (N.of_nat (length qs)) n)).
+  Proof.
+    intros M qs n Hnd Hlt HM. split.
+    - apply (unitary_lift_spec C c0 c1 cadd cmul csub copp cconj); assumption.
+    - intros Hn Hlen. apply (unitary_lift_model C c0 c1 cadd cmul csub copp cconj); assumption.
+  Qed.
+
+  (** EVERY modifier stack over unitary tables gives a unitary matrix — stacks of any depth, the
+      known-finding class `mixed-controlled-forked` INCLUDED: there the code pairs the modifier
+      qubits in reverse, but its matrix is still built from the same block constructions. *)
+  Theorem C15_unitary_modifiers : C15_full_unitarity.
+  Proof.
+    intros Hbase g s p m.
+    apply (gate_matrix_unitary C c0 c1 cadd cmul csub copp cconj); assumption.
+  Qed.
+
+  (** ... and so does the Quil semantics of the stack. *)
+  Theorem C15_unitary_spec_modifiers :
+    (forall g p, unitary (N.to_nat (2 ^ arity g)) (base g p)) ->
+    forall g s p m, spec_matrix g s p = Ok m -> unitary (N.to_nat (mdim C m)) (ment C m).
+  Proof.
+    intros Hbase g s p m.
+    apply (spec_matrix_unitary C c0 c1 cadd cmul csub copp cconj); assumption.
+  Qed.
+
+  (** `Gate::to_unitary(n)` and `Program::to_unitary(n)` over unitary tables: the modelled unitary
+      of every well-formed gate ([gate_ok]: gate_matrix succeeds, one distinct qubit below n per
+      matrix qubit; n <= 5 and at most 3 qubits: the scope of C14_lift), the Quil semantics lifted
+      (any n), and the unitary of every program of such gates. *)
+  Theorem C15_unitary_gates_programs :
+    (forall g p, unitary (N.to_nat (2 ^ arity g)) (base g p)) ->
+    (forall n (x : mgate P),
+        n <= 5 -> (length (g_qubits P x) <= 3)%nat ->
+        gate_ok C c0 c1 cadd cmul cconj P base n x ->
+        unitary (N.to_nat (2 ^ n)) (gate_unitary_model C c0 c1 cadd cmul cconj P base n x)) /\
+    (forall n (x : mgate P) m,
+        spec_matrix (g_name P x) (g_mods P x) (g_params P x) = Ok m ->
+        N.of_nat (length (g_qubits P x)) = mq C m ->
+        NoDup (g_qubits P x) -> (forall q, In q (g_qubits P x) -> q < n) ->
+        unitary (N.to_nat (2 ^ n)) (gate_unitary_spec C c0 c1 cadd cmul cconj P base n x)) /\
+    (forall n (p : list (mgate P)),
+        n <= 5 ->
+        (forall x, In x p -> (length (g_qubits P x) <= 3)%nat /\
+                             gate_ok C c0 c1 cadd cmul cconj P base n x) ->
+        unitary (N.to_nat (2 ^ n))
+                (program_unitary C c0 c1 cadd cmul
+                   (gate_unitary_model C c0 c1 cadd cmul cconj P base n) (N.to_nat (2 ^ n)) p)).
+  Proof.
+    intros Hbase. split; [|split].
+    - apply (gate_unitary_model_unitary C c0 c1 cadd cmul csub copp cconj); assumption.
+    - apply (gate_unitary_spec_unitary C c0 c1 cadd cmul csub copp cconj); assumption.
+    - apply (program_gates_unitary C c0 c1 cadd cmul csub copp cconj); assumption.
+  Qed.
 End C15.
+
+(** * Unitarity of the standard gates
+
+    Scalars: a commutative ring with a conjugation that is an involutive ring homomorphism, an
+    element i with i^2 = -1 and conj i = -i, a self-conjugate s ("1/sqrt 2") with s^2 + s^2 = 1,
+    an element "e^{i pi/4}" with conj z * z = 1; angles [A] with self-conjugate cos and sin
+    satisfying cos^2 + sin^2 = 1.  All true of the complex numbers; no real-number axioms. *)
+Section C15Std.
+  Variables (C A : Type).
+  Variables (c0 c1 ci cs ccis4 : C) (cadd cmul csub : C -> C -> C) (copp cconj : C -> C).
+  Variables (half aneg : A -> A) (ccos csin ccis : A -> C) (theta0 : A).
+  Hypothesis Cring : ring_theory c0 c1 cadd cmul csub copp (@eq C).
+  Hypothesis conj_0 : cconj c0 = c0.
+  Hypothesis conj_1 : cconj c1 = c1.
+  Hypothesis conj_add : forall a b, cconj (cadd a b) = cadd (cconj a) (cconj b).
+  Hypothesis conj_mul : forall a b, cconj (cmul a b) = cmul (cconj a) (cconj b).
+  Hypothesis conj_invol : forall a, cconj (cconj a) = a.
+  Hypothesis conj_i : cconj ci = copp ci.
+  Hypothesis i_sq : cmul ci ci = copp c1.
+  Hypothesis conj_s : cconj cs = cs.
+  Hypothesis s_sq : cadd (cmul cs cs) (cmul cs cs) = c1.
+  Hypothesis cis4_unit : cmul (cconj ccis4) ccis4 = c1.
+  Hypothesis conj_cos : forall a, cconj (ccos a) = ccos a.
+  Hypothesis conj_sin : forall a, cconj (csin a) = csin a.
+  Hypothesis cos_sin : forall a, cadd (cmul (ccos a) (ccos a)) (cmul (csin a) (csin a)) = c1.
+
+  Notation unitary := (unitary C c0 c1 cadd cmul cconj).
+  Notation tm := (table_matrix C A c0 c1 ci cs ccis4 cadd cmul csub copp half aneg ccos csin ccis).
+  (** the tables of the Rust source as a [base] family: the parameter is the angle *)
+  Notation sbase := (std_base C A c0 c1 ci cs ccis4 cadd cmul csub copp half aneg ccos csin ccis theta0).
+
+  (** Every table written in the Rust source denotes a unitary matrix, for every angle theta. *)
+  Theorem C15_tables_unitary :
+    forall (theta : A) (g : gate), unitary (N.to_nat (2 ^ arity g)) (tm (model_table g) theta).
+  Proof.
+    apply (model_table_unitary C A c0 c1 ci cs ccis4 cadd cmul csub copp cconj half aneg ccos csin ccis);
+      assumption.
+  Qed.
+
+  (** So does every matrix of the Quil specification section 4.3 (under C14's hypotheses relating
+      e^{i a} to cos and sin). *)
+  Theorem C15_spec_tables_unitary :
+    (forall a, ccis a = cadd (ccos a) (cmul ci (csin a))) ->
+    (forall a, ccos (aneg a) = ccos a) ->
+    (forall a, csin (aneg a) = copp (csin a)) ->
+    forall (theta : A) (g : gate), unitary (N.to_nat (2 ^ arity g)) (tm (spec_table g) theta).
+  Proof.
+    intros euler cos_even sin_odd.
+    apply (spec_table_unitary C A c0 c1 ci cs ccis4 cadd cmul csub copp cconj half aneg ccos csin ccis);
+      assumption.
+  Qed.
+
+  (** "Every computed unitary is unitary", for the model of the code over the standard gates:
+      (1) gate_matrix of EVERY modifier stack (any depth; mixed CONTROLLED/FORKED stacks included),
+          every gate, all parameters;  (2) likewise the Quil semantics of the stack;
+      (3) the modelled `Gate::to_unitary(n)` of every well-formed gate (n <= 5, at most 3 qubits:
+          the scope of C14_lift);  (4) the modelled `Program::to_unitary(n)` of every program of
+          such gates. *)
+  Theorem C15_unitary :
+    (forall g s p m,
+        gate_matrix C c0 c1 cadd cmul cconj A sbase g s p = Ok m ->
+        unitary (N.to_nat (mdim C m)) (ment C m)) /\
+    (forall g s p m,
+        spec_matrix C c0 c1 cadd cmul cconj A sbase g s p = Ok m ->
+        unitary (N.to_nat (mdim C m)) (ment C m)) /\
+    (forall n (x : mgate A),
+        n <= 5 -> (length (g_qubits A x) <= 3)%nat ->
+        gate_ok C c0 c1 cadd cmul cconj A sbase n x ->
+        unitary (N.to_nat (2 ^ n)) (gate_unitary_model C c0 c1 cadd cmul cconj A sbase n x)) /\
+    (forall n (p : list (mgate A)),
+        n <= 5 ->
+        (forall x, In x p -> (length (g_qubits A x) <= 3)%nat /\
+                             gate_ok C c0 c1 cadd cmul cconj A sbase n x) ->
+        unitary (N.to_nat (2 ^ n))
+                (program_unitary C c0 c1 cadd cmul
+                   (gate_unitary_model C c0 c1 cadd cmul cconj A sbase n) (N.to_nat (2 ^ n)) p)).
+  Proof.
+    split; [|split; [|split]].
+    - apply (std_gate_matrix_unitary C A c0 c1 ci cs ccis4 cadd cmul csub copp cconj); assumption.
+    - apply (std_spec_matrix_unitary C A c0 c1 ci cs ccis4 cadd cmul csub copp cconj); assumption.
+    - apply (std_gate_unitary C A c0 c1 ci cs ccis4 cadd cmul csub copp cconj); assumption.
+    - apply (std_program_unitary C A c0 c1 ci cs ccis4 cadd cmul csub copp cconj); assumption.
+  Qed.
+End C15Std.
+
+(** The hypotheses of Section C15Std (and C14's) hold simultaneously in a concrete structure built
+    without axioms: the field Q(zeta_8) = Q(sqrt 2, i) over the canonical rationals [Qc] (a subfield
+    of the complex numbers, with complex conjugation), i = zeta^2, 1/sqrt 2 = (zeta - zeta^3)/2,
+    e^{i pi/4} = zeta, and the angles k * atan(4/3), k an integer, whose cosine and sine are the
+    rationals Re, Im ((3 + 4i)/5)^k. *)
+Theorem C15_unitary_hypotheses_satisfiable :
+  ring_theory K8_0 K8_1 K8_add K8_mul K8_sub K8_opp (@eq K8) /\
+  K8_conj K8_0 = K8_0 /\ K8_conj K8_1 = K8_1 /\
+  (forall a b, K8_conj (K8_add a b) = K8_add (K8_conj a) (K8_conj b)) /\
+  (forall a b, K8_conj (K8_mul a b) = K8_mul (K8_conj a) (K8_conj b)) /\
+  (forall a, K8_conj (K8_conj a) = a) /\
+  K8_conj K8_i = K8_opp K8_i /\ K8_mul K8_i K8_i = K8_opp K8_1 /\
+  K8_conj K8_s = K8_s /\ K8_add (K8_mul K8_s K8_s) (K8_mul K8_s K8_s) = K8_1 /\
+  K8_mul (K8_conj K8_cis4) K8_cis4 = K8_1 /\
+  (forall k : Z, K8_conj (K8_cos k) = K8_cos k) /\ (forall k : Z, K8_conj (K8_sin k) = K8_sin k) /\
+  (forall k : Z, K8_add (K8_mul (K8_cos k) (K8_cos k)) (K8_mul (K8_sin k) (K8_sin k)) = K8_1) /\
+  (forall k : Z, K8_cis k = K8_add (K8_cos k) (K8_mul K8_i (K8_sin k))) /\
+  (forall k : Z, K8_cos (Z.opp k) = K8_cos k) /\ (forall k : Z, K8_sin (Z.opp k) = K8_opp (K8_sin k)) /\
+  K8_cis4 = K8_add K8_s (K8_mul K8_i K8_s).
+Proof. exact K8_hypotheses. Qed.
 
 (** The specification's lifting commutes with transposition, so the lifted adjoint is the adjoint
     of the lifted matrix. *)
@@ -199,3 +402,18 @@ Example C15_nonvacuous :
   | Err _ => False
   end.
 Proof. vm_compute. repeat split; reflexivity. Qed.
+
+(** Non-vacuity of C15_unitary: over Q(zeta_8), CONTROLLED FORKED RX(phi, 2 phi) (a mixed stack;
+    phi = atan(4/3), "half" interpreted as the identity on angle indices) is a 3-qubit matrix with
+    entries cos phi = 3/5, -i sin phi = -(4/5) i, cos 2 phi = -7/25, and 0. *)
+Example C15_unitary_nonvacuous :
+  match gate_matrix K8 K8_0 K8_1 K8_add K8_mul K8_conj Z K8_base GRX [MControlled; MForked] [1%Z; 2%Z] with
+  | Ok m => mq K8 m = 3 /\
+            K8_coeffs (ment K8 m 2 2) = [(3%Z, 5%positive); (0%Z, 1%positive); (0%Z, 1%positive); (0%Z, 1%positive)] /\
+            K8_coeffs (ment K8 m 2 3) = [(0%Z, 1%positive); (0%Z, 1%positive); ((-4)%Z, 5%positive); (0%Z, 1%positive)] /\
+            K8_coeffs (ment K8 m 6 6) = [((-7)%Z, 25%positive); (0%Z, 1%positive); (0%Z, 1%positive); (0%Z, 1%positive)] /\
+            K8_coeffs (ment K8 m 0 2) = [(0%Z, 1%positive); (0%Z, 1%positive); (0%Z, 1%positive); (0%Z, 1%positive)]
+  | Err _ => False
+  end.
+Proof. vm_compute. repeat split; reflexivity. Qed.
+
